@@ -1,8 +1,10 @@
 use crate::core::Property;
 
+pub mod c01;
 pub mod c02;
 pub mod c03;
 pub mod c04;
+pub mod c05;
 pub mod c06;
 pub mod c07;
 pub mod c12;
@@ -17,9 +19,11 @@ pub mod indic;
 
 pub fn registry() -> Vec<Box<dyn Property>> {
     vec![
+        Box::new(c01::C01),
         Box::new(c02::C02),
         Box::new(c03::C03),
         Box::new(c04::C04),
+        Box::new(c05::C05),
         Box::new(c06::C06),
         Box::new(c07::C07),
         Box::new(indic::C08),
